@@ -1,6 +1,7 @@
 (* C14: composition.  H265Payloader output for a sequence of NAL units (AddDONL off), parsed by
    H265Packet and reassembled the way RFC 7798 prescribes, is exactly the sequence of units.
-   Excluded by hypothesis: units of exactly MTU-1 bytes (KF-C14-lone-fu). *)
+   (A unit of exactly MTU-1 bytes used to become a lone FU - the former KF-C14-lone-fu; since the
+   repair it is sent as a single NAL unit packet and is covered here like any other.) *)
 From Coq Require Import ZArith List Lia Bool.
 From Coq Require Import ZifyBool.
 From RTP Require Import Base.Bits Base.Res Base.ListX Base.Own Base.Bytes Base.Tactics
@@ -27,7 +28,7 @@ Fixpoint reassemble (pkts : list h5packet) (cur : option (list Z)) : list (list 
   | PPaci _ _ _ _ :: t => reassemble t cur
   end.
 
-Definition unit_ok (mtu : Z) (n : list Z) : Prop := valid_nal5 n /\ zlen n <> mtu - 1.
+Definition unit_ok (mtu : Z) (n : list Z) : Prop := valid_nal5 n.
 
 Lemma valid_nal5_len n : valid_nal5 n -> 3 <= zlen n.
 Proof.
@@ -107,7 +108,7 @@ Lemma nalu_reassembles mtu st b n : 4 <= mtu <= 65535 -> h5_donl_on st = false -
     (forall rest, reassemble (pkts ++ rest) None = emitted ++ reassemble rest None) /\
     hb_nalus b ++ [n] = emitted ++ hb_nalus b'.
 Proof.
-  intros Hm Hd Hb Hu (Hv & Hlone). pose proof (valid_nal5_len n Hv) as H3.
+  intros Hm Hd Hb Hu Hv. pose proof (valid_nal5_len n Hv) as H3.
   unfold h5_nalu. rewrite Hd. replace (zlen n <? 2) with false by lia.
   destruct (zlen n + 2 + 0 <=? mtu) eqn:Efit.
   - (* the unit joins the aggregation buffer, after a flush when it would not fit *)
@@ -146,6 +147,21 @@ Proof.
         split; [reflexivity|]. split; [exact Hd|]. split; [exact Hb2|]. split; [exact Hu2|].
         split; [constructor|]. split; [reflexivity|]. reflexivity.
   - (* fragmentation units *)
+    destruct (Z_lt_ge_dec (zlen n) mtu) as [Hlone|Hge].
+    { (* exactly MTU-1 bytes: too long for the fits test, but the payload fills a single fragment -
+         the unit goes out as a single NAL unit packet *)
+      destruct (flush_reassembles mtu st b Hd Hb Hu) as (fs1 & pk1 & Hfl & Hp1 & Hr1).
+      destruct (single_reassembles n Hv) as (p & Hp & Hrs).
+      destruct n as [|h0 [|h1 body]]; try contradiction.
+      rewrite !zlen_cons in *. pose proof (zlen_nonneg body) as Hb0.
+      replace ((mtu - (3 + 0) <=? 0) || (zlen body =? 0)) with false by lia.
+      rewrite Hfl. replace (zlen body <=? mtu - (3 + 0)) with true by lia.
+      unfold h5_flush at 1. cbn [hb_nalus]. rewrite Hd.
+      exists st, (mkH5Buf [] 0), (fs1 ++ [Own (h0 :: h1 :: body)]), (pk1 ++ [p]), (hb_nalus b ++ [h0 :: h1 :: body]).
+      split; [reflexivity|]. split; [exact Hd|]. split; [apply buf_ok_empty; lia|]. split; [constructor|].
+      split; [apply Forall2_app; [exact Hp1|constructor; [exact Hp|constructor]]|].
+      split; [|cbn [hb_nalus]; rewrite app_nil_r; reflexivity].
+      intros rest. rewrite <- app_assoc, Hr1. cbn [app]. rewrite Hrs, <- app_assoc. reflexivity. }
     destruct n as [|h0 [|h1 [|x body']]]; try contradiction. set (body := x :: body') in *.
     destruct Hv as (Hh0 & Hh1 & _).
     assert (Hbig : mtu <= zlen (h0 :: h1 :: body)) by lia.
